@@ -1,5 +1,5 @@
 """Property registry: Coq target, K function, evidence text."""
-from . import props_ledger as PL
+from . import props_ledger as PL, props_ledger2 as PL2
 
 def spec(pid, k, rule, need_cli=False, not_proved="", trusted_extra=None, assumptions=None):
     return {"pid": pid, "target": "Props/P_%s.vo" % pid, "vfile": "Props/P_%s.v" % pid, "module": "Props.P_%s" % pid,
@@ -11,6 +11,18 @@ LEDGER_RULE = ("corpus (46 repository fixtures + /verif/corpus) first, then scen
                "competing disposals, splits, events, 30% shuffled); distinct = distinct after shifting dates and renaming tickers; "
                "non-trivial = the code accepts it and some disposal has a leg other than a lone Section-104 leg, or both sides reject it in calculate")
 
+VAR_RULE = (" Each base ledger is also run in variants (permutations, fills, projections, rescaled twins, with/without an event, "
+            "extensions) through the code alone; evaluations counts every run.")
 PROPS = {
+    "C01": spec("C01", PL.k_c01, LEDGER_RULE),
     "C02": spec("C02", PL.k_c02, LEDGER_RULE),
+    "C03": spec("C03", PL.k_c03, LEDGER_RULE),
+    "C04": spec("C04", PL.k_c04, LEDGER_RULE),
+    "C05": spec("C05", PL2.k_c05, LEDGER_RULE + " C05 histories: truncated exports, duplicated sale rows, forward-matched companions, split/unsplit edge oversells; non-trivial also when some sale is uncovered."),
+    "C06": spec("C06", PL2.k_c06, LEDGER_RULE + VAR_RULE),
+    "C07": spec("C07", PL2.k_c07, LEDGER_RULE + " Plus the complete sweep of day numbers 1899-01-01..2101-12-31 (model vs chrono vs 6-April rule) and every year filter around each ledger's years."),
+    "C09": spec("C09", PL2.k_c09, LEDGER_RULE + VAR_RULE),
+    "C10": spec("C10", PL2.k_c10, LEDGER_RULE + VAR_RULE),
+    "C11": spec("C11", PL2.k_c11, LEDGER_RULE + VAR_RULE),
+    "C12": spec("C12", PL2.k_c12, LEDGER_RULE + VAR_RULE),
 }
